@@ -19,8 +19,12 @@ def run(pid, ev, rep, tmp, tests=('tests',)):
     tail = r.stdout.decode('utf8', 'replace')[-400:]
     if r.returncode not in (0, 1):
         raise C.MachineryFailure('the test suite did not run under the recorder: %s' % tail)
+    if pid == 'C06':
+        lexed_tokens(out, ev, rep, tmp)
     cases = []
-    for f in sorted(glob.glob(os.path.join(out, '*.ndjson'))):
+    for f in sorted(glob.glob(os.path.join(out, '[0-9]*.ndjson'))):
+        if f.endswith('.tokens.ndjson'):
+            continue
         for line in open(f):
             b = json.loads(line)
             def odd(v):       # a token without positions, or a span of which only one end is known (None positions)
@@ -42,3 +46,31 @@ def run(pid, ev, rep, tmp, tests=('tests',)):
     if sum(len(c['reds']) for c in cases) < 2000:
         raise C.MachineryFailure('the recorder saw only %d reductions in the test suite: %s' % (sum(len(c['reds']) for c in cases), tail))
     return tb.judge(pid, cases, ev, rep, tmp, 'suite')
+
+
+def lexed_tokens(out, ev, rep, tmp):
+    """coordinates of every token the basic/contextual lexers handed out during the suite, against Coord of Lexer.tla"""
+    from . import c07
+    runs = []
+    for f in sorted(glob.glob(os.path.join(out, '*.tokens.ndjson'))):
+        for line in open(f):
+            r = json.loads(line)
+            runs.append({'n': r['n'], 'M': [], 'NL': r['NL'], 'a': 0, 'mode': 'tree', 'toks': r['toks'], 'among': [[]], 'err': -1, 'ecls': '', 'eline': 0,
+                         'ecol': 0, 'basicacc': False, 'ctxacc': False, 'same': False, 'overlap': False, 'dyn': False, 'nodes': []})
+    ev.count('suite_texts_lexed', len(runs))
+    ev.count('suite_tokens', sum(len(r['toks']) for r in runs))
+    ev.count('suite_tokens_after_a_newline', sum(1 for r in runs for t in r['toks'] if t[3] > 1))
+    if sum(len(r['toks']) for r in runs) < 3000:
+        raise C.MachineryFailure('the recorder saw only %d tokens in the test suite' % sum(len(r['toks']) for r in runs))
+    CH = 400
+    paths = [C.write_batch({'cases': [{'T': [], 'rank': {}, 'SM': [], 'order': [], 'runs': runs[off:off + CH]}]}, tmp, 'suite_tokens_%d.json' % off)
+             for off in range(0, len(runs), CH)]
+    results = C.tlc_parallel('TraceLex', c07.TRACE_CFG, paths, continue_=True, timeout=3000, env={'VERIF_WHICH': 'C06'})
+    for pi, res in enumerate(results):
+        C.tlc_must_run(res, 'TraceLex (suite tokens)')
+        ev.add_tlc('TraceLex[C06]:suite-tokens', res, 'trace')
+        os.remove(paths[pi])
+        for v in sorted(set(tuple(x) for x in res.verdicts)):
+            r = runs[pi * CH + int(v[1]) - 1]
+            rep.violation({'property': 'C06', 'clause': 'suite:' + v[2], 'where': 'a token lexed while the test suite ran', 'n': r['n'], 'newlines': r['NL'][:20],
+                           'tokens': r['toks'][:20]})
